@@ -69,19 +69,18 @@ impl<'de> MapAccess<'de> for ParamMap {
 
 struct ParamList<'a> {
     items: &'a [Param],
+    consumed: &'a core::cell::Cell<usize>,
 }
 struct ParamSeq<'a> {
     items: &'a [Param],
     at: usize,
+    consumed: &'a core::cell::Cell<usize>,
 }
 
 impl<'de, 'a> Deserializer<'de> for ParamList<'a> {
     type Error = VErr;
     fn deserialize_any<V: Visitor<'de>>(self, v: V) -> Result<V::Value, VErr> {
-        v.visit_seq(ParamSeq {
-            items: self.items,
-            at: 0,
-        })
+        v.visit_seq(ParamSeq { items: self.items, at: 0, consumed: self.consumed })
     }
     forward_to_deserialize_any! {
         bool i8 i16 i32 i64 i128 u8 u16 u32 u64 u128 f32 f64 char str string bytes byte_buf option unit
@@ -98,8 +97,11 @@ impl<'de, 'a> SeqAccess<'de> for ParamSeq<'a> {
         if self.at < self.items.len() {
             let p = self.items[self.at];
             self.at += 1;
+            self.consumed.set(self.at);
             seed.deserialize(ParamDe(p)).map(Some)
         } else {
+            // the end of the list has been observed
+            self.consumed.set(self.items.len() + 1);
             Ok(None)
         }
     }
@@ -118,7 +120,8 @@ fn params_case<const N: usize>(allow_long: bool) {
     }
     let n: usize = kani::any();
     kani::assume(n <= N);
-    let r = FilteredPublicKeyCredentialParameters::deserialize(ParamList { items: &items[..n] });
+    let consumed = core::cell::Cell::new(0usize);
+    let r = FilteredPublicKeyCredentialParameters::deserialize(ParamList { items: &items[..n], consumed: &consumed });
     // specification: the first two entries with type "public-key" and alg in {-7, -8}, in order
     let mut want = [0i32; 2];
     let mut w = 0;
@@ -137,6 +140,8 @@ fn params_case<const N: usize>(allow_long: bool) {
             // C12: a type string of 33 bytes is beyond the declared capacity and must reject the list
             assert!(!any_long, "C12/C14: an algorithm-parameter type string of 33 bytes was accepted");
             assert!(f.0.len() == w, "C14: wrong number of known parameters kept");
+            // the whole list must be read: elements left in the stream would be taken for the next map key of the request
+            assert!(consumed.get() == n + 1, "C14/C01: the parameter list was not read to its end");
             if w > 0 {
                 assert!(f.0[0].alg == want[0], "C14: first preference wrong");
             }
@@ -160,7 +165,7 @@ pub fn c14_k_filtered_params_upto3() {
 #[kani::proof]
 #[kani::unwind(36)]
 pub fn c14_k_filtered_params_type_capacity() {
-    params_case::<2>(true);
+    params_case::<1>(true);
 }
 
 #[kani::proof]
@@ -173,21 +178,19 @@ pub fn c14_k_filtered_params_upto6() {
 struct FormatList<'a> {
     items: &'a [u8],
     other: &'a str,
+    consumed: &'a core::cell::Cell<usize>,
 }
 struct FormatSeq<'a> {
     items: &'a [u8],
     other: &'a str,
     at: usize,
+    consumed: &'a core::cell::Cell<usize>,
 }
 
 impl<'de: 'a, 'a> Deserializer<'de> for FormatList<'de> {
     type Error = VErr;
     fn deserialize_any<V: Visitor<'de>>(self, v: V) -> Result<V::Value, VErr> {
-        v.visit_seq(FormatSeq {
-            items: self.items,
-            other: self.other,
-            at: 0,
-        })
+        v.visit_seq(FormatSeq { items: self.items, other: self.other, at: 0, consumed: self.consumed })
     }
     forward_to_deserialize_any! {
         bool i8 i16 i32 i64 i128 u8 u16 u32 u64 u128 f32 f64 char str string bytes byte_buf option unit
@@ -204,14 +207,19 @@ impl<'de> SeqAccess<'de> for FormatSeq<'de> {
         if self.at < self.items.len() {
             let k = self.items[self.at];
             self.at += 1;
+            self.consumed.set(self.at);
             let s: &'de str = match k {
                 0 => "packed",
                 1 => "none",
                 2 => "tpm",
+                // registered WebAuthn format identifiers of 17 and 11 bytes
+                3 => "android-safetynet",
+                4 => "android-key",
                 _ => self.other,
             };
             seed.deserialize(BorrowedStrDeserializer::new(s)).map(Some)
         } else {
+            self.consumed.set(self.items.len() + 1);
             Ok(None)
         }
     }
@@ -222,7 +230,7 @@ fn formats_case<const N: usize>() {
     let mut i = 0;
     while i < N {
         let k: u8 = kani::any();
-        kani::assume(k < 4);
+        kani::assume(k < 6);
         kinds[i] = k;
         i += 1;
     }
@@ -237,10 +245,8 @@ fn formats_case<const N: usize>() {
     let other = unsafe { core::str::from_utf8_unchecked(&ob) };
     let n: usize = kani::any();
     kani::assume(n <= N);
-    let r = AttestationFormatsPreference::deserialize(FormatList {
-        items: &kinds[..n],
-        other,
-    });
+    let consumed = core::cell::Cell::new(0usize);
+    let r = AttestationFormatsPreference::deserialize(FormatList { items: &kinds[..n], other, consumed: &consumed });
     let mut want = [0u8; 2];
     let mut w = 0;
     let mut unknown = false;
@@ -277,6 +283,7 @@ fn formats_case<const N: usize>() {
                 p.includes_unknown_formats() == unknown,
                 "C14: unknown-format flag wrong"
             );
+            assert!(consumed.get() == n + 1, "C14/C01: the format list was not read to its end");
         }
         Err(_) => panic!("C14: a format list with unknown entries was rejected"),
     }
@@ -356,7 +363,7 @@ mod counting {
 /// sequence whose announced length is the number of elements emitted, one per stored entry
 /// (duplicates included): C02 "each member that is set appears once", C03 "one well-formed item".
 #[kani::proof]
-#[kani::unwind(6)]
+#[kani::unwind(14)]
 pub fn c03_k_filtered_params_serialize_length() {
     use serde::Serialize;
     let mut v: heapless::Vec<KnownPublicKeyCredentialParameters, COUNT_KNOWN_ALGS> = heapless::Vec::new();
